@@ -63,3 +63,18 @@ CLAIMS["C20"] = {"engine": "send-builder", "level": "model_checking",
                  "text": "TLC enumerates every wallet of a boundary alphabet (values around dust/postage thresholds, inscriptions at offsets, runic/locked/inscribed cardinals in the thorough tier, fee rates, three targets) through the pipeline model and checks the C20 clauses and that no internal assertion is reachable (this found the half-vbyte defect, now repaired, and the recorded exact-postage finding); every configuration is then executed on the real TransactionBuilder::build_transaction and TLC evaluates the same clauses on the observed transactions (plus seeded random real-scale wallets); the model result must equal the observed one (drift channel)",
                  "note": "trusted: TLC, harness, bitcoin crate vsize; taproot scripts only; half-integer fee rates <= 1000 sat/vB",
                  "technique": "TLC model checking of spec/SendBuilder.tla + spec-to-implementation replay and TLA+ trace validation (SendTrace)"}
+
+
+ENGINES.append({"name": "fn-trace", "path": "spec/FnTrace.tla", "serves_properties": ["C26", "C29", "C30", "C31", "C32", "C33", "C34"],
+                "kind_free_text": "exact-arithmetic TLA+ definitions (spec/OrdNumbers.tla over spec/BigNat.tla) of varints, sat numbering, rune names, the unlock schedule and decimal amounts; TLC validates (input, output) pairs recorded from the real functions; small design-level models (VarintModel, SatModel) are checked exhaustively"})
+_FN = "trusted: TLC, the harness sampling and limb encoding; inputs are boundary classes plus seeded random values, not all values"
+def _fn(level, text):
+    return {"engine": "fn-trace", "level": level, "text": text, "note": _FN,
+            "technique": "TLA+ definitions with exact BigNat arithmetic; TLC trace validation of recorded (input, output) pairs of the real functions"}
+CLAIMS["C26"] = _fn("model_checking", "TLC checks the decoder automaton against the property-level definition (value of the first terminated group, fits in 128 bits, documented error classes) for every byte string over a class alphabet up to length 4 and the 18..21-byte boundary, plus encode/decode round trip (VarintModel); the real encode/decode are then evaluated on boundary and random u128 values and byte strings and TLC validates every pair against the same definition")
+CLAIMS["C29"] = _fn("model_checking", "SatModel checks the numbering scheme on a small-scale instance (closed form vs block-by-block mining, bijection sat <-> (height, offset)); at true scale TLC recomputes with BigNat, from the BIP definition, the starting sat and subsidy of sampled heights (every halving +-2, difficulty boundaries, the last subsidy height, random; thorough: 800-height windows around all 33 halvings) and, for the first/last/random sats of each, height, offset, epoch, cycle, period, degree, decimal, rarity, common(), charms and name, and the rarity supply table against closed-form counts")
+CLAIMS["C30"] = _fn("exploration", "for the same sampled sats the five printed notations are parsed back by the real parser and TLC requires the result to be the sat (the percentile notation is an f64 computation that TLA+ cannot model: only the round trip is required)")
+CLAIMS["C31"] = _fn("exploration", "structured cases per grammar (sat integer/decimal/degree/percentile/name, rune, spaced rune, rune id, decimal, inscription id, satpoint; components drawn from magnitude classes 0, small, max-1, max, max+1, >u32, >u64, >u128, leading zeros; separators missing/doubled; non-finite floats) are parsed by the real FromStr under catch_unwind; TLC computes with BigNat what the string denotes and requires: no panic, and accepted => in range and equal to the denoted value; random strings are offered to every parser incl. Outgoing for totality. Found and repaired: degree overflow, NAN%, spaced-rune shift overflow, Decimal overflow/precision panics")
+CLAIMS["C32"] = _fn("exploration", "boundary (26^k sums +-1, RESERVED +-1, u128::MAX) and random runes with random spacer masks: TLC checks with BigNat that the printed name denotes the integer under modified base-26, parse(print) is the identity, the commitment is the little-endian encoding without trailing zeros, reserved <=> >= first 27-letter name, spacers print/parse with those past the last letter dropped")
+CLAIMS["C33"] = _fn("exploration", "for all five networks TLC checks on recorded minimum_at_height values: non-increasing over consecutive heights (windows around every step; thorough: all 210,006 heights), <= first 13-letter name at the first rune block, zero once the schedule completes, and for boundary/random names that unlock_height is the first height whose minimum is at or below the name (reserved names never unlock)")
+CLAIMS["C34"] = _fn("exploration", "u128 boundary (10^k +-1, u128::MAX) and random amounts x divisibilities 0..38: TLC checks the printed digits against the exact quotient/remainder, that parsing the printed number gives value/scale denoting it and that to_integer returns the amount")
